@@ -976,7 +976,11 @@ func checkDecimalOutput(c *Ctx, p *Prog, rule string) {
 		if par == nil {
 			continue
 		}
-		verdict, detail = evalDecimalHelper(p, h, par)
+		upTo := int64(70000)
+		if c.Tier == "thorough" {
+			upTo = 2000000
+		}
+		verdict, detail = evalDecimalHelper(p, h, par, upTo)
 		break
 	}
 	switch verdict {
@@ -995,7 +999,7 @@ func popKindOfCallee(p *Prog, h *ssa.Function) bool {
 
 // evalDecimalHelper evaluates h with its number parameter set to each value of the domain and
 // compares what it writes with the decimal form.
-func evalDecimalHelper(p *Prog, h *ssa.Function, par *ssa.Parameter) (string, string) {
+func evalDecimalHelper(p *Prog, h *ssa.Function, par *ssa.Parameter, upTo int64) (string, string) {
 	str := func(s string) *cv {
 		out := &cv{kind: cvAgg}
 		for i := 0; i < len(s); i++ {
@@ -1003,7 +1007,7 @@ func evalDecimalHelper(p *Prog, h *ssa.Function, par *ssa.Parameter) (string, st
 		}
 		return out
 	}
-	for n := int64(-1000); n <= 70000; n++ {
+	for n := int64(-1000); n <= upTo; n++ {
 		var written []byte
 		bad := ""
 		ce := &constEval{pk: p.pkg("terminfo"), globals: map[*ssa.Global]*cv{}}
@@ -1052,7 +1056,7 @@ func evalDecimalHelper(p *Prog, h *ssa.Function, par *ssa.Parameter) (string, st
 			return "fail", fmt.Sprintf("%s(%d) writes %q, the decimal form is %q", h.Name(), n, written, strconv.Itoa(int(n)))
 		}
 	}
-	return "ok", fmt.Sprintf("%s evaluated for every number from -1000 to 70000: it writes the decimal form", h.Name())
+	return "ok", fmt.Sprintf("%s evaluated for every number from -1000 to %d: it writes the decimal form", h.Name(), upTo)
 }
 
 // checkEmptinessTestMatchesReset: drawCell decides "nothing has been written for this cell yet" (and
@@ -1337,7 +1341,7 @@ func checkWidePaddingFromMainRune(c *Ctx, p *Prog, rule string) {
 // iff 0 <= index < Colors, then the background likewise.  Answers nil when the function cannot be
 // evaluated (the symbolic reading of c15TColor is used then), otherwise a map from the rule's keys to
 // the first counter-example ("" when the clause held everywhere).
-func evalTColor(p *Prog, fn *ssa.Function) map[string]string {
+func evalTColor(p *Prog, fn *ssa.Function, dense bool) map[string]string {
 	tparm := p.Fn("terminfo:(*Terminfo).TParm")
 	named := p.namedType(p.Terminfo, "Terminfo")
 	if tparm == nil || named == nil || len(fn.Params) != 3 {
@@ -1358,11 +1362,17 @@ func evalTColor(p *Prog, fn *ssa.Function) map[string]string {
 	}
 	tag := func(b byte) *cv { return &cv{kind: cvAgg, elems: []*cv{cvI(int64(b))}} }
 	var idxs []int64
-	for i := int64(-3); i <= 40; i++ {
+	hi := int64(40)
+	if dense {
+		hi = 300 // the thorough tier: every index up to 300 against every other
+	}
+	for i := int64(-3); i <= hi; i++ {
 		idxs = append(idxs, i)
 	}
 	for _, b := range []int64{87, 88, 89, 100, 254, 255, 256, 257, 300, 1<<24 - 1, 1 << 24, 1<<24 + 1} {
-		idxs = append(idxs, b)
+		if b > hi {
+			idxs = append(idxs, b)
+		}
 	}
 	res := map[string]string{}
 	for _, v := range []string{"fi", "bi"} {
